@@ -188,24 +188,31 @@ theorem C17_colocated_client_no_effect (st : State) (k : Nat) :
 /-- **Re-install.**  `software_manager.install(DatabaseService[, config])` at run time either changes nothing (refused
 without a configuration while installed; the constructor raises while a live `database.db` exists), or replaces the
 instance: then NO connection of the old instance survives (every id ever issued is refused from then on,
-`C17_closed_stays_closed_run`), the password is the configured one, the session limit is the default again, the database
-file is a fresh GOOD one, and the service owns port 5432 - whatever a co-located client did to the port map. -/
-theorem C17_reinstall (s : Server) (cfg : Option (Option Nat × Bool)) :
+`C17_closed_stays_closed_run`), the password, the fixing duration and the starting health are the configured ones (UNUSED
+becomes GOOD at once when the service starts, i.e. when the node is ON; FIXING starts with the full countdown), the session
+limit is the default again, the database file is a fresh GOOD one, and the service owns port 5432 - whatever a co-located
+client did to the port map. -/
+theorem C17_reinstall (s : Server) (cfg : Option InstCfg) :
     ((s.reinstall cfg).2 ≠ .done → (s.reinstall cfg).1 = s) ∧
     ((s.reinstall cfg).2 = .done →
       s.file = none ∧ (s.installed = false ∨ cfg.isSome) ∧
       (s.reinstall cfg).1.conns = [] ∧ (∀ id, (s.reinstall cfg).1.hasConn id = false) ∧
-      (s.reinstall cfg).1.password = (match cfg with | some c => c.1 | none => none) ∧
+      (s.reinstall cfg).1.password = (cfg.getD { bk := false }).pw ∧
+      (s.reinstall cfg).1.fixDur = (cfg.getD { bk := false }).fixDur ∧
+      (s.reinstall cfg).1.health =
+        (if s.node.isOn && (cfg.getD { bk := false }).health == .unused then .good else (cfg.getD { bk := false }).health) ∧
+      ((cfg.getD { bk := false }).health = .fixing → (s.reinstall cfg).1.fixCd = (cfg.getD { bk := false }).fixDur) ∧
       (s.reinstall cfg).1.maxSessions = 100 ∧ (s.reinstall cfg).1.file = some .good ∧
-      (s.reinstall cfg).1.listening = true ∧ (s.reinstall cfg).1.health = .good ∧ (s.reinstall cfg).1.nextId = s.nextId ∧
+      (s.reinstall cfg).1.listening = true ∧ (s.reinstall cfg).1.nextId = s.nextId ∧
       (s.reinstall cfg).1.ftpc.isSome) := by
   refine ⟨(reinstall_frame s cfg).1, ?_⟩
   unfold Server.reinstall Server.listening Server.hasConn
-  cases hi : s.installed <;> cases cfg <;> cases hf : s.file <;> cases hft : s.ftpc <;> simp
+  cases hi : s.installed <;> cases cfg <;> cases hf : s.file <;> cases hft : s.ftpc <;> simp <;> intro h <;> simp [h]
 
-example : ((({ conns := [⟨0, 0⟩], nextId := 1, file := none } : Server).reinstall (some (some 2, true))).1.receive 0 (.sql (some 0) .select)).2
+example : ((({ conns := [⟨0, 0⟩], nextId := 1, file := none } : Server).reinstall (some { pw := some 2 })).1.receive 0 (.sql (some 0) .select)).2
     = some (401, none) := by decide
-example : (({} : Server).reinstall (some (none, true))).2 = .raised := by decide
+example : (({} : Server).reinstall (some {})).2 = .raised := by decide
+example : (({ file := none } : Server).reinstall (some { health := .fixing, fixDur := 3 })).1.fixCd = 3 := by decide
 example : (({} : Server).reinstall none).2 = .refused := by decide
 
 /-! ## 4. Backup / damage / restore cycles along every run
@@ -464,6 +471,7 @@ theorem step_keeps_stored (st : State) (op : Op) (x : FHealth) (h : st.bk.stored
   | folderDelete => exact h
   | admin a => exact h
   | dl a => exact h
+  | fsr db a => exact h
   | co k => simp only [step]; (repeat' split) <;> exact h
   | dm i q scan atk via =>
     simp only [step]; split
@@ -588,10 +596,11 @@ namespace Primaite.Database
 re-installed database service's session limit and durations, and the FTP client's restart / fix durations. -/
 theorem C17_gen_fresh_instance_defaults :
     ftpcRestartDur = Gen.Database.restartDurationDefault ∧ ftpcFixDur = Gen.Database.fixingDurationDefault ∧
-    ∀ (s : Server) (cfg : Option (Option Nat × Bool)), (s.reinstall cfg).2 = .done →
+    ∀ (s : Server) (cfg : Option InstCfg), (s.reinstall cfg).2 = .done →
       (s.reinstall cfg).1.maxSessions = Gen.Database.maxSessionsDefault ∧
       (s.reinstall cfg).1.restartDur = Gen.Database.restartDurationDefault ∧
-      (s.reinstall cfg).1.fixDur = Gen.Database.fixingDurationDefault := by
+      (s.reinstall cfg).1.fixDur = (cfg.getD { bk := false }).fixDur ∧
+      ({} : InstCfg).fixDur = Gen.Database.fixingDurationDefault := by
   refine ⟨by decide, by decide, ?_⟩
   intro s cfg h
   unfold Server.reinstall at h ⊢
@@ -882,7 +891,7 @@ theorem C17_backup_deleted (st : State) :
 /-- **Re-installing the service orphans its backup.**  A re-install that goes through leaves the old instance's copy on the
 backup host where it was - under the OLD uuid, as an orphan that nothing reads any more - and the new instance has no
 backup: a restore fails until the new instance has taken its own. A refused or raising re-install changes nothing. -/
-theorem C17_reinstall_orphans_backup (st : State) (cfg : Option (Option Nat × Bool)) :
+theorem C17_reinstall_orphans_backup (st : State) (cfg : Option InstCfg) :
     ((step st (.svcInstall cfg)).2.res = some true →
       (step st (.svcInstall cfg)).1.bk.stored = none ∧
       (step st (.svcInstall cfg)).1.bk.orphans = st.bk.orphans ++ st.bk.stored.toList ∧
@@ -963,6 +972,7 @@ theorem step_keeps_none (st : State) (op : Op) (h : st.bk.stored = none) (hop : 
   | folderDelete => exact h
   | admin a => exact h
   | dl a => exact h
+  | fsr db a => exact h
   | co k => simp only [step]; (repeat' split) <;> exact h
   | dm i q scan atk via =>
     simp only [step]; split
@@ -1011,5 +1021,78 @@ example :
     (run st ops).bk.stored = none ∧ (step (run st ops) (.restore true true)).2.res = some false ∧
     (run st (ops ++ [.backup true])).bk.stored = some .compromised ∧
     (run st (ops ++ [.backup true, .restore true true])).srv.file = some .compromised := by decide
+
+end Primaite.Database
+
+namespace Primaite.Database
+
+/-! ## 7. File-system requests on database/ and downloads/, the FTP client's health (round 4) -/
+
+/-- **File-system requests** (`['file_system', …]` on the database host: corrupt / repair / restore / scan / delete of
+`database.db`, restore of a deleted copy, corrupt / repair / delete of the folder) on `database/` or `downloads/` change
+nothing but that folder's live file, its deleted copies and its existence - not the service, its table, its health, the
+FTP client; a request on `downloads/` never touches the database file; all of them need the node ON. What they leave behind
+is covered by the restore theorems for EVERY state: a restore that succeeds yields the backup
+(`C17_restore_roundtrip_run` allows any of these requests between backup and restore), one without a path fails. -/
+theorem C17_fs_requests (s : Server) (db : Bool) (a : FsAct) :
+    (s.fsr db a).1 = { s with file := (s.fsr db a).1.file, folder := (s.fsr db a).1.folder, fileDeleted := (s.fsr db a).1.fileDeleted,
+                              downloads := (s.fsr db a).1.downloads, dlFolder := (s.fsr db a).1.dlFolder,
+                              dlDeleted := (s.fsr db a).1.dlDeleted } ∧
+    (db = false → (s.fsr db a).1.file = s.file ∧ (s.fsr db a).1.fileDeleted = s.fileDeleted) ∧
+    (db = true → (s.fsr db a).1.downloads = s.downloads ∧ (s.fsr db a).1.dlDeleted = s.dlDeleted) ∧
+    (s.node.isOn = false → s.fsr db a = (s, none)) := by
+  refine ⟨(fsr_frame s db a).1, ?_, ?_, ?_⟩
+  · intro h; subst h; unfold Server.fsr; split <;> exact ⟨rfl, rfl⟩
+  · intro h; subst h; unfold Server.fsr; split <;> exact ⟨rfl, rfl⟩
+  · intro h; unfold Server.fsr; simp [h]
+
+/-- `restore file`: a live file is restored in place (CORRUPT → GOOD, anything else kept); with no live file the OLDEST
+deleted copy comes back with the health it was deleted with - so un-deleting a COMPROMISED database file yields
+COMPROMISED data again (and a backup taken then stores exactly that, `C17_backup_stores`). -/
+theorem C17_fs_restore_file (f : Fold) :
+    (f.present = false → f.act .fundelete = (f, some false)) ∧
+    (f.present = true → ∀ h, f.live = some h →
+        f.act .fundelete = ({ f with live := some (if h = .corrupt then .good else h) }, some true)) ∧
+    (f.present = true → f.live = none → ∀ h rest, f.deleted = h :: rest →
+        f.act .fundelete = ({ f with live := some h, deleted := rest }, some true)) ∧
+    (f.present = true → f.live = none → f.deleted = [] → f.act .fundelete = (f, some false)) := by
+  unfold Fold.act
+  refine ⟨?_, ?_, ?_, ?_⟩
+  · intro h; simp [h]
+  · intro hp h hl; simp [hp, hl]
+  · intro hp hl h rest hd; simp [hp, hl, hd]
+  · intro hp hl hd; simp [hp, hl, hd]
+
+example :
+    let st : State := { clients := [{}] }
+    let ops : List Op := [.backup true, .connect 0, .hQuery 0 .delete, .fsr true .fdelete, .restore true true,
+                          .fsr true .fdelete, .fsr true .fundelete]
+    (run st ops).srv.file = some .compromised ∧ (run st ops).srv.fileDeleted = [.good] := by decide
+
+/-- **The FTP client's health does not matter** (`compromise` / `fix` requests on it): backup and restore give the same
+result whatever it is - only its operating state counts (`C17_ftp_client_needed`). -/
+theorem C17_ftpc_health_irrelevant (s : Server) (b : Backup) (pq pr k big : Bool) (c : Bool) (fx : Option Nat) :
+    (restoreBackup { s with ftpcComp := c, ftpcFix := fx } b pq pr k).2 = (restoreBackup s b pq pr k).2 ∧
+    (restoreBackup { s with ftpcComp := c, ftpcFix := fx } b pq pr k).1.file = (restoreBackup s b pq pr k).1.file ∧
+    (backupDatabase { s with ftpcComp := c, ftpcFix := fx } b pq big).2 = (backupDatabase s b pq big).2 := by
+  have e1 : Server.canAct { s with ftpcComp := c, ftpcFix := fx } = s.canAct := rfl
+  have e2 : Server.ftpcAct { s with ftpcComp := c, ftpcFix := fx } = s.ftpcAct := rfl
+  refine ⟨?_, ?_, ?_⟩
+  · rw [restoreBackup_closed, restoreBackup_closed]; simp only [e1, e2]
+    cases hg : (!s.canAct || !s.backupConfigured || s.ftpc.isNone)
+    · cases hs : b.stored with
+      | none => simp
+      | some bh => cases hx : (pq && b.serves && k && pr && s.ftpcAct) <;> simp
+    · simp
+  · rw [restoreBackup_closed, restoreBackup_closed]; simp only [e1, e2]
+    cases hg : (!s.canAct || !s.backupConfigured || s.ftpc.isNone)
+    · cases hs : b.stored with
+      | none => simp
+      | some bh => cases hx : (pq && b.serves && k && pr && s.ftpcAct) <;> simp
+    · simp
+  · unfold backupDatabase ftpSendFile
+    simp only [e1, e2]
+    cases hc : s.canAct <;> cases hbc : s.backupConfigured <;> cases hft : s.ftpc <;> cases hf : s.file <;> simp
+    cases big <;> cases hs : b.stored <;> cases hq : s.ftpConn <;> cases ha : s.ftpcAct <;> cases pq <;> cases hbs : b.serves <;> simp
 
 end Primaite.Database
